@@ -17,13 +17,14 @@ RANGE_LIFTS = {
 }
 
 POP_RULES = [
-    Sub(r"range desired_range\{0, 0\};", "struct range desired_range = {0, 0};", 1),
-    Sub(r"range expected_range = current_range\.data_\.load\(std::memory_order_relaxed\);",
-        "struct range expected_range = atomic_load(&self->current_range);", 1),
-    Sub(r"\b(\w+)\.empty\(\)", r"range_empty(&\1)", 1),
-    Sub(r"return std::nullopt;", "return opt_none();", 1),
-    Call(r"current_range\.data_\.compare_exchange_weak", "atomic_cas_weak(&self->current_range, &{0}, {1})", 1),
-    Call(r"std::make_optional(?:<>)?", "opt_some({0})", 1),
+    # C++ spelling -> C spelling; every operand is captured (an edit of WHAT is computed must fail an obligation, not a rule)
+    Sub(r"\brange (\w+)\{([^{};]*)\};", r"struct range \1 = {\2};", None),
+    Call(r"\bcurrent_range\.data_\.load", "atomic_load(&self->current_range)", None),
+    Sub(r"(?<!struct )\brange (\w+) = ", r"struct range \1 = ", None),
+    Sub(r"\b(\w+)\.empty\(\)", r"range_empty(&\1)", None),
+    Sub(r"return std::nullopt;", "return opt_none();", None),
+    Call(r"current_range\.data_\.compare_exchange_(?:weak|strong)", "atomic_cas_weak(&self->current_range, &{0}, {1})", "+"),
+    Call(r"std::make_optional(?:<>)?", "opt_some({0})", None),
 ]
 LOOP_POP = """
 __CPROVER_assigns(index, desired_range, expected_range, self->current_range, lin, lin_old, lin_new, g_last_read)
@@ -36,13 +37,13 @@ for (tname, ttype, nd) in [("u32", "uint32_t", "nondet_u32"), ("i32", "int32_t",
     UNITS += [
         Unit("ciq.pop_left." + tname, "ciq.c", defines=D + ["U_POP_LEFT"], enforce="pop_left",
              lifts=dict(RANGE_LIFTS, body=Lift(CIQ, r"std::optional<T> pop_left\(\)", rules=POP_RULES + [
-                 Sub(r"\b(\w+)\.increment_first\(\)", r"range_increment_first(&\1)", 1)],
+                 Sub(r"\b(\w+)\.increment_first\(\)", r"range_increment_first(&\1)", None)],
                  loops={1: LOOP_POP, "count": 1})),
              funcs=[CIQ + ": contiguous_index_queue<%s>::pop_left, range::increment_first, range::empty" % ttype],
              min_obligations=40, extra_flags=["--unsigned-overflow-check", "--conversion-check"]),
         Unit("ciq.pop_right." + tname, "ciq.c", defines=D + ["U_POP_RIGHT"], enforce="pop_right",
              lifts=dict(RANGE_LIFTS, body=Lift(CIQ, r"std::optional<T> pop_right\(\)", rules=POP_RULES + [
-                 Sub(r"\b(\w+)\.decrement_last\(\)", r"range_decrement_last(&\1)", 1)],
+                 Sub(r"\b(\w+)\.decrement_last\(\)", r"range_decrement_last(&\1)", None)],
                  loops={1: LOOP_POP, "count": 1})),
              funcs=[CIQ + ": contiguous_index_queue<%s>::pop_right, range::decrement_last" % ttype],
              min_obligations=40, extra_flags=["--unsigned-overflow-check", "--conversion-check"]),
